@@ -311,7 +311,8 @@ func (s *server) OnWebTransportSession(ctx *types.HttpContext, wt *webtransport.
 		return
 	}
 
-	if len(wth.Sid) == 0 {
+	// JSON "null" decodes without error and leaves the pointer nil
+	if wth == nil || len(wth.Sid) == 0 {
 		server_log.Debug("invalid WebTransport handshake")
 		abortUpgrade(ctx, BAD_REQUEST, nil)
 		return
